@@ -1,5 +1,5 @@
 #!/usr/bin/env python3
-"""benign_report.py [--jobs N] [ID ...] — apply every mutants/<ID>/benign-*.patch to a scratch copy of /repo, run ALL checks,
+"""benign_report.py [--jobs N] [--match SUBSTR] [ID ...] — apply every mutants/<ID>/benign-*.patch to a scratch copy of /repo, run ALL checks,
 print every violation (the self-test stops at the first)."""
 import os, sys, subprocess, tempfile, shutil, re
 from concurrent.futures import ThreadPoolExecutor
@@ -28,11 +28,14 @@ def main():
     args = [a for a in sys.argv[1:]]
     if "--jobs" in args:
         i = args.index("--jobs"); jobs = int(args[i + 1]); del args[i:i + 2]
+    pat = ""
+    if "--match" in args:
+        i = args.index("--match"); pat = args[i + 1]; del args[i:i + 2]
     todo = []
     for pid in sorted(os.listdir(os.path.join(V, "mutants"))):
         if args and pid not in args: continue
         for f in sorted(os.listdir(os.path.join(V, "mutants", pid))):
-            if f.startswith("benign") and f.endswith(".patch"):
+            if f.startswith("benign") and f.endswith(".patch") and pat in f:
                 todo.append((pid, os.path.join(V, "mutants", pid, f)))
     nbad = 0
     with ThreadPoolExecutor(max_workers=jobs) as ex:
